@@ -1049,6 +1049,79 @@ def _members_cond(m):
     return None
 
 
+_WIDE_INT = {'int', 'np.intp', 'np.int64', 'np.int_', 'np.uint64', 'np.uintp', 'np.int32', 'np.uint32', 'np.longlong',
+             "'int'", "'int64'", "'intp'", "'uint64'", "'i8'", "'u8'", "'int32'", "'uint32'", "'i4'", "'u4'",
+             'np.dtype(int)', "np.dtype('int64')", 'numpy.intp', 'numpy.int64'}
+_NOT_INDEX = {'float', 'bool', 'np.float64', 'np.float32', 'np.float16', 'np.double', 'np.single', 'np.bool_', 'np.int8',
+              'np.int16', 'np.uint8', 'np.uint16', 'np.short', 'np.byte', 'np.ubyte', "'float'", "'float32'", "'float64'",
+              "'int8'", "'int16'", "'uint8'", "'uint16'", "'i1'", "'i2'", "'u1'", "'u2'", "'f4'", "'f8'", "'bool'", 'complex'}
+_LIKE = {'np.zeros_like': 1, 'np.empty_like': 1, 'np.ones_like': 1, 'np.full_like': 2}
+_ALLOC = {'np.zeros': 1, 'np.empty': 1, 'np.ones': 1, 'np.full': 2}
+
+
+def _d4_index_dtype(ck, rule, mod, fn, fi, F, out, st, A, D):
+    """dtype provenance of the array that receives the frame indices (finding
+    find-centers-label-dtype): frame indices range over 0..n_frames-1 whatever
+    the labels are, so the storage they are written to must be an index-wide
+    integer type chosen independently of the label (and distance) arrays.
+    `np.zeros_like(<labels>)` makes the element type of the LABELS the element
+    type of the FRAME INDICES: uint8 labels wrap the index modulo 256, int8/
+    int16 labels overflow, float labels return float 'indices'."""
+    sites = [s for s in fi.rd.defs_at(st, out) if s not in ('PARAM', 'UNBOUND')]
+    if not sites or len(sites) != len(fi.rd.defs_at(st, out)):
+        ck.missing(rule, 'allocation of the index array `%s` of %s' % (out, F))
+        return
+    for site in sites:
+        v = fi.def_value(site, out) if isinstance(site, (ast.Assign, ast.AnnAssign)) else None
+        if v is None:
+            ck.missing(rule, 'allocation of the index array `%s` not understood: %s' % (out, u(site)[:100]))
+            continue
+        role = 'allocation of the frame-index array returned by %s' % F
+        if isinstance(v, ast.List) and not v.elts or (isinstance(v, ast.Call) and call_name(v) == 'list' and not v.args):
+            ck.ok(rule, mod, site, u(site), 'python list of integer frame indices')
+            continue
+        cn = call_name(v) if isinstance(v, ast.Call) else None
+        if cn not in _LIKE and cn not in _ALLOC:
+            ck.missing(rule, 'allocation of the index array `%s` not recognised: %s' % (out, u(site)[:100]))
+            continue
+        dpos = _LIKE.get(cn) or _ALLOC.get(cn)
+        dt = None
+        for k in v.keywords:
+            if k.arg == 'dtype':
+                dt = k.value
+        if dt is None and len(v.args) > dpos:
+            dt = v.args[dpos]
+        if dt is not None:
+            dte = xp(fi, dt)
+            txt = ct(dte)
+            if {A, D} & set(names_loaded(dte)):
+                ck.bad(rule, mod, site, F, role, 'the element type `%s` of the frame-index array is taken from the input arrays: frame indices '
+                       'range over 0..n_frames-1 independently of the label / distance dtype' % txt)
+            elif txt in _WIDE_INT:
+                ck.ok(rule, mod, site, u(site), 'index-wide integer storage for the frame indices')
+            elif txt in _NOT_INDEX:
+                ck.bad(rule, mod, site, F, role, 'the frame-index array is allocated with dtype %s, which cannot hold every frame index' % txt)
+            else:
+                ck.missing(rule, 'dtype of the index array not recognised: %s' % txt)
+            continue
+        if cn in _LIKE:
+            proto = xp(fi, v.args[0]) if v.args else None
+            if proto is not None and ({A, D} & set(names_loaded(proto))):
+                src = A if A in names_loaded(proto) else D
+                ck.bad(rule, mod, site, F, role,
+                       '`%s` (prototype: %s) gives the frame indices the element type of `%s`: a compact label dtype (uint8 for <= 255 states) '
+                       'silently wraps frame indices >= 256 (a frame of another label is returned), int8/int16 overflow, float labels '
+                       'return float indices; allocate with an explicit index dtype (dtype=int)' % (u(v), ct(proto), src))
+            else:
+                ck.missing(rule, 'prototype of the index array not traced to a parameter: %s' % u(v)[:100])
+            continue
+        if cn == 'np.full' and len(v.args) > 1 and isinstance(const_value(v.args[1]), int) and not isinstance(const_value(v.args[1]), bool):
+            ck.ok(rule, mod, site, u(site), 'np.full with an integer fill value: default integer storage')
+            continue
+        ck.bad(rule, mod, site, F, role, '`%s` allocates float64 storage (no dtype): the function returns float values where frame indices '
+               'are expected (not usable as indices)' % u(v))
+
+
 def d4_find_centers(ck):
     rule = 'C10.D4.find-centers'
     F = 'find_cluster_centers'
@@ -1078,6 +1151,7 @@ def d4_find_centers(ck):
         ck.missing(rule, 'single store of the per-label frame index into `%s` inside the per-label loop (found %d)' % (out, len(emits)))
         return
     st, pos, val = emits[0]
+    _d4_index_dtype(ck, rule + '.index-dtype', mod, fn, fi, F, out, st, A, D)
     loop = _enclosing(mod, st, (ast.For,), stop=fn)
     shape = _loop_shape(fi, loop)
     if shape is None:
@@ -1275,6 +1349,162 @@ def d5_partition_list(ck):
            'start initialised to 0', 'the running offset must start at 0')
 
 
+# ---------------------------------------------------------------------------
+# D7: batch reassignment never produces an empty batch
+#
+# compute_batches keeps an OPEN batch (the last element of the list it
+# returns) and, per trajectory, either extends it or opens a new one.  If the
+# list starts with an open EMPTY batch, the first trajectory must be accepted
+# by it whatever its length: otherwise the empty batch stays in the result and
+# batch_reassign loads zero files for it (IndexError in load_as_concatenated).
+# The caller only rejects batch_size < max(lengths), so `length == batch_size`
+# is admissible.  Decided by evaluating the accept-test under the abstraction
+# "the open batch is empty" (sum/len of it = 0, its truth value = False):
+# three-valued; the test must come out True.
+
+def _d7_eval(e, cur, scope):
+    """(value, residual_closed): value True/False/None of the test when every
+    expression in `cur` (texts of `<list>[-1]`) denotes an empty list."""
+    def zero(x):
+        if isinstance(x, ast.Call) and call_name(x) in ('sum', 'len', 'np.sum') and len(x.args) == 1 and ct(x.args[0]) in cur:
+            return True
+        m = match('_X.sum()', x)
+        return m is not None and ct(m['_X']) in cur
+
+    def ev(x):
+        if isinstance(x, ast.BoolOp):
+            vals = [ev(v) for v in x.values]
+            if isinstance(x.op, ast.Or):
+                return True if any(v is True for v in vals) else (False if all(v is False for v in vals) else None)
+            return False if any(v is False for v in vals) else (True if all(v is True for v in vals) else None)
+        if isinstance(x, ast.UnaryOp) and isinstance(x.op, ast.Not):
+            v = ev(x.operand)
+            return None if v is None else (not v)
+        if ct(x) in cur:
+            return False
+        if isinstance(x, ast.Compare) and len(x.ops) == 1:
+            l, r, op = x.left, x.comparators[0], x.ops[0]
+            lz, rz = zero(l), zero(r)
+            lk, rk = (0 if lz else const_value(l)), (0 if rz else const_value(r))
+            if isinstance(lk, int) and isinstance(rk, int) and (lz or rz):
+                return {ast.Eq: lk == rk, ast.NotEq: lk != rk, ast.Lt: lk < rk, ast.LtE: lk <= rk,
+                        ast.Gt: lk > rk, ast.GtE: lk >= rk}.get(type(op))
+        return None
+    return ev(e)
+
+
+def d7_batches(ck):
+    rule = 'C10.D7.batches.no-empty-batch'
+    F = 'compute_batches'
+    mod = ck.repo.mod(CU)
+    fn = mod.functions.get(F)
+    if fn is None:
+        ck.missing(rule, 'function %s in %s' % (F, CU))
+        return
+    ck.analysed(mod, fn)
+    fi = finfo(mod, fn)
+    ps = params(fn)
+    if len(ps) < 2:
+        ck.missing(rule, 'parameters (lengths, batch_size) of %s' % F)
+        return
+    lens, B = ps[:2]
+    out = _returned_name(fi, fn)
+    if out is None:
+        ck.missing(rule, 'the list of batches %s returns (a filtered / rebuilt result is not analysed)' % F)
+        return
+
+    def init_of(name):
+        ds = [s for s in assigns_to(fn, name) if isinstance(s, ast.Assign) and fi.def_value(s, name) is not None]
+        return ds
+
+    def starts_empty_batch(name):
+        """True: initialised to [[]] (one open empty batch); False: initialised to []; None: anything else."""
+        ds = init_of(name)
+        if len(ds) != 1:
+            return None
+        v = fi.def_value(ds[0], name)
+        if isinstance(v, ast.List) and len(v.elts) == 1 and isinstance(v.elts[0], ast.List) and not v.elts[0].elts:
+            return True
+        if isinstance(v, ast.List) and not v.elts:
+            return False
+        return None
+
+    def appends(region, recv_text):
+        return [c for c in calls_in(region) if isinstance(c.func, ast.Attribute) and c.func.attr in ('append', 'extend')
+                and ct(c.func.value) == recv_text and len(c.args) == 1]
+
+    se = starts_empty_batch(out)
+    if se is None:
+        ck.missing(rule, 'initialisation of the batch list `%s`' % out)
+        return
+    loops = [l for l in walk_local(fn) if isinstance(l, ast.For) and _loop_shape(fi, l) is not None and _loop_shape(fi, l)[0] == lens]
+    if len(loops) != 1:
+        ck.missing(rule, 'the loop over `%s` in %s (found %d)' % (lens, F, len(loops)))
+        return
+    loop = loops[0]
+    cur_out = C('%s[-1]' % out)
+    # the branch: one arm extends the open batch, the other opens a new one
+    cand = []
+    for s in walk_local(loop):
+        if isinstance(s, ast.If):
+            ext_b = bool(appends(ast.Module(body=s.body, type_ignores=[]), cur_out))
+            new_b = bool(appends(ast.Module(body=s.body, type_ignores=[]), out))
+            ext_o = bool(appends(ast.Module(body=s.orelse, type_ignores=[]), cur_out))
+            new_o = bool(appends(ast.Module(body=s.orelse, type_ignores=[]), out))
+            if ext_b and new_o and not new_b and not ext_o:
+                cand.append((s, True))
+            elif ext_o and new_b and not new_o and not ext_b:
+                cand.append((s, False))
+    if len(cand) != 1:
+        ck.missing(rule, 'the branch `extend the open batch / open a new batch` in the loop of %s (found %d)' % (F, len(cand)))
+        return
+    branch, pol = cand[0]
+    # a new batch is opened non-empty
+    arm_new = branch.orelse if pol else branch.body
+    for c in appends(ast.Module(body=arm_new, type_ignores=[]), out):
+        a = c.args[0]
+        if isinstance(a, ast.List) and not a.elts:
+            se = True if se is False else se
+    if se is False:
+        ck.ok(rule, mod, branch, 'batch list `%s` starts empty; every batch is opened with its first trajectory' % out,
+              'no empty batch can be emitted')
+        return
+    # lists kept in lock step with the returned one (e.g. the per-batch sizes)
+    cur = {cur_out}
+    lock = {out}
+    names = {t for st in walk_local(fn) if isinstance(st, ast.Assign) for t in target_names(st.targets[0])}
+    for nm in sorted(names - {out}):
+        if starts_empty_batch(nm) is True:
+            tx = C('%s[-1]' % nm)
+            arm_ext = branch.body if pol else branch.orelse
+            if appends(ast.Module(body=arm_ext, type_ignores=[]), tx) and appends(ast.Module(body=arm_new, type_ignores=[]), nm):
+                cur.add(tx)
+                lock.add(nm)
+    test = xp(fi, branch.test, stop=tuple(lock), strict=False)
+    val = _d7_eval(canon(test), cur, None)
+    accept = val if pol else (None if val is None else (not val))
+    # mitigation in the consumer: empty batches are skipped
+    cons = mod.functions.get('batch_reassign')
+    if cons is not None:
+        for l in walk_local(cons):
+            if isinstance(l, ast.For) and l.body and isinstance(l.body[0], ast.If) and \
+                    any(isinstance(x, ast.Continue) for x in l.body[0].body) and \
+                    set(target_names(l.target)) & set(names_loaded(l.body[0].test)):
+                ck.ok(rule, mod, l.body[0], 'batch_reassign skips a batch on `%s`' % u(l.body[0].test), 'empty batches are not loaded')
+                return
+    construct = 'first trajectory: accept-test of the open (empty) batch'
+    if accept is True:
+        ck.ok(rule, mod, branch, construct + ': ' + u(branch.test), 'an empty open batch accepts the next trajectory whatever its length: no empty batch is emitted')
+        return
+    shape = _loop_shape(fi, loop)
+    scope = {B, lens} | {x for x in shape[2] if x.isidentifier()} | {shape[1] or ''} | {x.id for c in cur for x in ast.walk(ast.parse(c, mode='eval')) if isinstance(x, ast.Name)}
+    _three(ck, False, test, scope, rule, mod, branch, F, construct,
+           '', 'the batch list starts with an open EMPTY batch (`%s = [[]]`) and the test `%s` can reject the first trajectory while that batch is '
+           'still empty (e.g. lengths[0] == batch_size, which batch_reassign admits: it only rejects batch_size < max(lengths)): a new batch is '
+           'opened and the empty one stays in the result -> batch_reassign loads zero files for it (IndexError). An empty open batch '
+           'must accept the next trajectory unconditionally' % (out, u(branch.test)))
+
+
 def _loop_variable_rebinds(ck):
     """Role-based form of the documented suppression `index -= traj_len` of
     partition_indices (sa/patterns.py SUPPRESS, keyed by source text): if the
@@ -1347,6 +1577,7 @@ def check(ck):
     d3_partition_indices(ck)
     d4_find_centers(ck)
     d5_partition_list(ck)
+    d7_batches(ck)
     check_no_arg_mutation(ck, 'C10.D6.inputs-unmodified', [
         (CU, 'assign_to_nearest_center'), (CU, 'find_cluster_centers'),
         (CU, 'ClusterResult.partition'), (RA, 'partition_indices'),
